@@ -240,7 +240,7 @@ def verus_unit(name, cfg, repo, build, tier):
 # Kani
 # ----------------------------------------------------------------------------------------------
 
-def kani_unit(name, cfg, repo, build, tier):
+def kani_unit(name, cfg, repo, build, tier, prop=None):
     """copy the working tree to a scratch dir, append one `#[cfg(kani)] mod` line per harness file, run the harnesses"""
     r = dict(unit=name, kind='kani', status='ok', reason='', diags=[], harnesses=[], wall=0.0)
     t0 = time.time()
@@ -259,7 +259,7 @@ def kani_unit(name, cfg, repo, build, tier):
             with open(dst, 'a') as f:
                 f.write('\n#[cfg(kani)]\n#[path = "%s"]\nmod verif_k_%s;\n' % (hp, re.sub(r'\W', '_', os.path.basename(harness_file).replace('.rs', ''))))
         env = dict(os.environ, CARGO_NET_OFFLINE='true', CARGO_TARGET_DIR=os.path.join(scratch, 'target'))
-        hs = [h for h in cfg['harnesses'] if tier == 'thorough' or not h.get('thorough_only')]
+        hs = [h for h in cfg['harnesses'] if (tier == 'thorough' or not h.get('thorough_only')) and (prop is None or prop in h['tags'])]
         # compile once (first harness), then the rest in parallel
         def run_h(h):
             t1 = time.time()
@@ -352,7 +352,7 @@ def main():
     prop = a.prop
     seed = int(os.environ.get('VERIF_SEED', '0') or 0)
     t0 = time.time()
-    build = os.path.join(VERIF, 'build', prop)
+    build = os.path.join(VERIF, 'build', prop if os.path.realpath(a.repo) == '/repo' else prop + '-' + hashlib.sha256(a.repo.encode()).hexdigest()[:8])
     shutil.rmtree(build, ignore_errors=True)
     os.makedirs(build)
     os.makedirs(os.path.join(VERIF, 'evidence'), exist_ok=True)
@@ -364,7 +364,7 @@ def main():
     results = []
     with cf.ThreadPoolExecutor(max_workers=8) as ex:
         futs = [ex.submit(verus_unit, n, c, a.repo, build, a.tier) for n, c in vunits.items()]
-        futs += [ex.submit(kani_unit, n, c, a.repo, build, a.tier) for n, c in kunits.items()]
+        futs += [ex.submit(kani_unit, n, c, a.repo, build, a.tier, prop) for n, c in kunits.items()]
         for f in futs: results.append(f.result())
 
     known, fixed = load_known()
@@ -452,7 +452,10 @@ def main():
         violations=len(violations),
     )
     if not ev['coverage']['explanation']: del ev['coverage']['explanation']
-    open(os.path.join(VERIF, 'evidence', prop + '.json'), 'w').write(json.dumps(ev, indent=1))
+    # evidence is only (re)written when the check runs against /repo itself; runs against scratch copies (mutation / seeded
+    # sensitivity passes) leave their record next to the generated units
+    evpath = os.path.join(VERIF, 'evidence', prop + '.json') if os.path.realpath(a.repo) == '/repo' else os.path.join(build, 'evidence.json')
+    open(evpath, 'w').write(json.dumps(ev, indent=1))
 
     for r in results:
         print('[%s] unit %-12s %-9s wall %.1fs %s' % (prop, r['unit'], r['status'], r.get('wall', 0), r['reason'][:300]))
